@@ -131,6 +131,9 @@ func genConvGeom(rt *rapid.T) convGeom {
 				lo, hi = 0, 0
 			}
 			o := rapid.IntRange(1, 4).Draw(rt, "out")
+			if a == sp-1 && rapid.IntRange(0, 11).Draw(rt, "bigOut") == 0 {
+				o = rapid.SampledFrom([]int{9, 16, 17, 33}).Draw(rt, "bigOutExt")
+			}
 			p := (o-1)*g.stride[a] + ke + rapid.IntRange(0, g.stride[a]-1).Draw(rt, "slack")
 			for p-lo-hi < 1 {
 				if lo > 0 {
